@@ -8,7 +8,7 @@ mkdir -p /tmp/seeded-logs
 for id in $ids; do
   checks=$(python3 -c "import json;print(' '.join(json.load(open('/verif/seeded/$id/meta.json'))['detected_by_quick_checks']))")
   echo "$id $checks"
-done | xargs -P 4 -L1 sh -c 'id=$0; /verif/bin/mutant-eval.sh /verif/seeded/$id "$@" > /tmp/seeded-logs/$id.log 2>&1'
+done | xargs -P 5 -L1 sh -c 'id=$0; /verif/bin/mutant-eval.sh /verif/seeded/$id "$@" > /tmp/seeded-logs/$id.log 2>&1'
 for id in $ids; do
   grep -h "DETECTED\|missed\|rejected\|PATCH-DOES-NOT-APPLY" /tmp/seeded-logs/$id.log | sed "s/^/$id  /" | cut -c1-160
 done
